@@ -127,9 +127,12 @@ func (w *faultWriter) Write(p []byte) (int, error) {
 	defer w.mu.Unlock()
 	w.calls++
 	w.sizes = append(w.sizes, len(p))
+	if w.fault != nil && strings.HasSuffix(w.fault.How, "-once") && w.calls != w.fault.At {
+		return w.buf.Write(p) // a transient failure: only call number At is refused
+	}
 	if w.fault != nil && w.calls >= w.fault.At {
 		w.refused = true
-		if w.fault.How == "short" && w.calls == w.fault.At {
+		if strings.HasPrefix(w.fault.How, "short") && w.calls == w.fault.At {
 			n := len(p) / 2
 			w.buf.Write(p[:n])
 			return n, errWriter
